@@ -566,7 +566,6 @@ def reader_rules(ctx, classes):
         ctx.ob('C03.D3', q, 'restores-fields', okf,
                'every (code, value) of header slot 6 must be stored on the '
                'message under _hcode[code]')
-        # unknown field codes are skipped, not fatal
         # padding / body split
         body = heap.get((m, 'rawBody'))
         okb = False
@@ -597,6 +596,80 @@ def reader_rules(ctx, classes):
             ctx.ob('C03.D4', q, 'body-decoded-under-signature', okc,
                    'the body must be decoded from rawBody under the parsed '
                    'signature with the parsed byte order')
+    # an unknown field code is skipped for THAT field only (readers must
+    # ignore codes they do not know; the fields after it still count)
+    itx = Interp(prog, exc_edges=True)
+    n_unknown = 0
+    for p in itx.run(fi):
+        for ev in p.trace:
+            if ev[0] != 'loop' or not (kind(ev[3]) == 'sub' and
+                                       ev[3][2] == C(6)):
+                continue
+            for bp in ev[4]:
+                edges = [e for e in bp.trace if e[0] == 'exc-edge' and
+                         e[1] == 'subscript']
+                if not edges:
+                    continue
+                n_unknown += 1
+                ctx.ob('C03.D3', q, 'unknown-code-skips-one-field',
+                       bp.outcome == 'continue',
+                       'a header field with a code that is not in _hcode '
+                       '(KeyError) must be skipped and the loop must go on '
+                       'with the next field; on this path the exception '
+                       'leaves the field loop, so every field after an '
+                       'unknown one (possibly the signature, hence the '
+                       'body) is dropped or the message is rejected')
+    if n_unknown == 0:
+        # no KeyError edge: every subscript of the code table must be
+        # guarded by a membership test on the same key (or .get be used)
+        unguarded = _unguarded_table_subscripts(fi.node)
+        ctx.ob('C03.D3', q, 'unknown-code-skips-one-field', not unguarded,
+               'parseMessage must tolerate unknown header field codes: '
+               'the code table is subscripted without a KeyError handler '
+               'or membership guard at line(s) %s' % unguarded)
+
+
+def _unguarded_table_subscripts(fn):
+    """Line numbers of `T[k]` in fn, T a module-level Name, k the loop's
+    code variable, that sit neither under `if k in T` nor inside a try."""
+    bad = []
+
+    def walk(node, guards, in_try):
+        if isinstance(node, ast.If):
+            g = set(guards)
+            t = node.test
+            tests = t.values if isinstance(t, ast.BoolOp) and \
+                isinstance(t.op, ast.And) else [t]
+            for x in tests:
+                if isinstance(x, ast.Compare) and len(x.ops) == 1 and \
+                        isinstance(x.ops[0], ast.In):
+                    g.add((ast.unparse(x.left),
+                           ast.unparse(x.comparators[0])))
+            walk(node.test, guards, in_try)
+            for st in node.body:
+                walk(st, g, in_try)
+            for st in node.orelse:
+                walk(st, guards, in_try)
+            return
+        if isinstance(node, ast.Try):
+            for st in node.body:
+                walk(st, guards, True)
+            for h in node.handlers:
+                walk(h, guards, in_try)
+            for st in node.orelse + node.finalbody:
+                walk(st, guards, in_try)
+            return
+        if isinstance(node, ast.Subscript) and \
+                isinstance(node.value, ast.Name) and \
+                node.value.id.startswith('_h') and not in_try and \
+                isinstance(node.ctx, ast.Load):
+            key = (ast.unparse(node.slice), node.value.id)
+            if key not in guards:
+                bad.append(node.lineno)
+        for ch in ast.iter_child_nodes(node):
+            walk(ch, guards, in_try)
+    walk(fn, frozenset(), False)
+    return bad
 
 
 def serial_rules(ctx):
